@@ -27,11 +27,15 @@ Definition frame_ev {A} (m : M A) : Prop :=
 Definition silent {A} (m : M A) : Prop :=
   forall c w c' w' r, m c w = (c', w', r) -> w_events w' = w_events w.
 
-(* the journal only grows, and the disk is the old disk after the journalled operations
+(* the journal only grows and the disk is the old disk after the journalled operations
    (the prefix is newest first, so it is replayed reversed) *)
-Definition journal_grows {A} (m : M A) : Prop :=
+Definition journaled {A} (m : M A) : Prop :=
   forall c w c' w' r, m c w = (c', w', r) ->
     exists ops, w_journal w' = ops ++ w_journal w /\ apply_sops (w_disk w) (rev ops) = Some (w_disk w').
+
+(* the journal only grows *)
+Definition journal_grows {A} (m : M A) : Prop :=
+  forall c w c' w' r, m c w = (c', w', r) -> exists ops, w_journal w' = ops ++ w_journal w.
 
 (* a pure read: core, disk and journal are untouched (events may be sent) *)
 Definition quiet {A} (m : M A) : Prop :=
@@ -59,13 +63,15 @@ Proof.
 Qed.
 
 (* [mstep H]: H : mbind m f c w = (c', w', r). Names the intermediate state, leaves
-   [Hm : m c w = (c1, w1, r1)] and cases on r1; in the three failure cases the equations
+   [Hm : m c w = (c1, w1, r1)] and cases on r1; in the three failure cases the identities
    c' = c1, w' = w1, r = ... are substituted. *)
 Ltac mstep_as H Hm :=
   let c1 := fresh "c" in let w1 := fresh "w" in let r1 := fresh "r" in
   apply mbind_inv in H; destruct H as (c1 & w1 & r1 & Hm & H);
   destruct r1 as [?a|?e|?s|];
-  [ | destruct H as (-> & -> & ->) | destruct H as (-> & -> & ->) | destruct H as (-> & -> & ->) ].
+  [ | destruct H as (? & ? & H); first [discriminate H | subst]
+    | destruct H as (? & ? & H); first [discriminate H | subst]
+    | destruct H as (? & ? & H); first [discriminate H | subst] ].
 Ltac mstep H := let Hm := fresh "Hm" in mstep_as H Hm.
 
 (* inversion of the primitive computations *)
@@ -84,6 +90,25 @@ Ltac prim_inv H :=
   | put_skip _ _ _ = _ => unfold put_skip in H
   | put_keypair _ _ _ = _ => unfold put_keypair in H
   end; inversion H; subst; clear H.
+
+(* computation rules for binds on primitives *)
+Lemma mbind_get_core {B} (f : core -> M B) c w : mbind get_core f c w = f c c w.
+Proof. reflexivity. Qed.
+Lemma mbind_get_disk {B} (f : disk -> M B) c w : mbind get_disk f c w = f (w_disk w) c w.
+Proof. reflexivity. Qed.
+Lemma mbind_ret {A B} (a : A) (f : A -> M B) c w : mbind (ret a) f c w = f a c w.
+Proof. reflexivity. Qed.
+Lemma mbind_lift {A B} (x : res A) (f : A -> M B) c w :
+  mbind (lift x) f c w = match x with
+                         | Ok a => f a c w
+                         | Err e => (c, w, Err e)
+                         | Panic s => (c, w, Panic s)
+                         | OutOfFuel => (c, w, OutOfFuel)
+                         end.
+Proof. unfold mbind, lift. now destruct x. Qed.
+Lemma mbind_send {B} e (f : unit -> M B) c w :
+  mbind (send e) f c w = f tt c (mkWorld (w_disk w) (w_journal w) (e :: w_events w)).
+Proof. reflexivity. Qed.
 
 (* ---------- emit ---------- *)
 
@@ -152,6 +177,7 @@ Proof.
 Qed.
 
 (* [monad_tac bindlemma prims]: structural proof of a predicate closed under mbind *)
+Ltac hyp := match goal with H : _ |- _ => apply H end.
 Ltac case_head :=
   match goal with
   | |- _ (match ?x with _ => _ end) => destruct x
@@ -163,7 +189,7 @@ Ltac silent_prim :=
         | apply silent_put_tree | apply silent_put_bitfield | apply silent_put_skip
         | apply silent_put_keypair | apply silent_emit ].
 Ltac silent_tac :=
-  repeat first [ silent_prim | assumption | apply silent_bind; [|intros ?] | case_head ].
+  repeat first [ silent_prim | hyp | apply silent_bind; [|intros ?] | case_head ].
 
 (* ---------- frame_ev ---------- *)
 
@@ -182,41 +208,41 @@ Proof.
 Qed.
 
 Ltac frame_ev_tac :=
-  repeat first [ apply frame_ev_send | apply silent_frame_ev; silent_prim | assumption
+  repeat first [ apply frame_ev_send | apply silent_frame_ev; silent_prim | hyp
                | apply frame_ev_bind; [|intros ?] | case_head ].
 
-(* ---------- journal_grows ---------- *)
+(* ---------- journaled ---------- *)
 
-Lemma journal_grows_same {A} (m : M A) :
+Lemma journaled_same {A} (m : M A) :
   (forall c w c' w' r, m c w = (c', w', r) -> w_disk w' = w_disk w /\ w_journal w' = w_journal w) ->
-  journal_grows m.
+  journaled m.
 Proof. intros Hq c w c' w' r H. apply Hq in H. destruct H as [Hd Hj]. exists []. now rewrite Hd, Hj. Qed.
 
-Lemma journal_grows_ret {A} (a : A) : journal_grows (ret a).
-Proof. apply journal_grows_same. intros c w c' w' r H. now prim_inv H. Qed.
-Lemma journal_grows_lift {A} (x : res A) : journal_grows (lift x).
-Proof. apply journal_grows_same. intros c w c' w' r H. now prim_inv H. Qed.
-Lemma journal_grows_get_core : journal_grows get_core.
-Proof. apply journal_grows_same. intros c w c' w' r H. now prim_inv H. Qed.
-Lemma journal_grows_get_disk : journal_grows get_disk.
-Proof. apply journal_grows_same. intros c w c' w' r H. now prim_inv H. Qed.
-Lemma journal_grows_set_core c0 : journal_grows (set_core c0).
-Proof. apply journal_grows_same. intros c w c' w' r H. now prim_inv H. Qed.
-Lemma journal_grows_send e : journal_grows (send e).
-Proof. apply journal_grows_same. intros c w c' w' r H. now prim_inv H. Qed.
-Lemma journal_grows_put_header h : journal_grows (put_header h).
-Proof. apply journal_grows_same. intros c w c' w' r H. now prim_inv H. Qed.
-Lemma journal_grows_put_oplog o : journal_grows (put_oplog o).
-Proof. apply journal_grows_same. intros c w c' w' r H. now prim_inv H. Qed.
-Lemma journal_grows_put_tree t : journal_grows (put_tree t).
-Proof. apply journal_grows_same. intros c w c' w' r H. now prim_inv H. Qed.
-Lemma journal_grows_put_bitfield b : journal_grows (put_bitfield b).
-Proof. apply journal_grows_same. intros c w c' w' r H. now prim_inv H. Qed.
-Lemma journal_grows_put_skip s : journal_grows (put_skip s).
-Proof. apply journal_grows_same. intros c w c' w' r H. now prim_inv H. Qed.
-Lemma journal_grows_put_keypair k : journal_grows (put_keypair k).
-Proof. apply journal_grows_same. intros c w c' w' r H. now prim_inv H. Qed.
-Lemma journal_grows_emit ops : journal_grows (emit ops).
+Lemma journaled_ret {A} (a : A) : journaled (ret a).
+Proof. apply journaled_same. intros c w c' w' r H. now prim_inv H. Qed.
+Lemma journaled_lift {A} (x : res A) : journaled (lift x).
+Proof. apply journaled_same. intros c w c' w' r H. now prim_inv H. Qed.
+Lemma journaled_get_core : journaled get_core.
+Proof. apply journaled_same. intros c w c' w' r H. now prim_inv H. Qed.
+Lemma journaled_get_disk : journaled get_disk.
+Proof. apply journaled_same. intros c w c' w' r H. now prim_inv H. Qed.
+Lemma journaled_set_core c0 : journaled (set_core c0).
+Proof. apply journaled_same. intros c w c' w' r H. now prim_inv H. Qed.
+Lemma journaled_send e : journaled (send e).
+Proof. apply journaled_same. intros c w c' w' r H. now prim_inv H. Qed.
+Lemma journaled_put_header h : journaled (put_header h).
+Proof. apply journaled_same. intros c w c' w' r H. now prim_inv H. Qed.
+Lemma journaled_put_oplog o : journaled (put_oplog o).
+Proof. apply journaled_same. intros c w c' w' r H. now prim_inv H. Qed.
+Lemma journaled_put_tree t : journaled (put_tree t).
+Proof. apply journaled_same. intros c w c' w' r H. now prim_inv H. Qed.
+Lemma journaled_put_bitfield b : journaled (put_bitfield b).
+Proof. apply journaled_same. intros c w c' w' r H. now prim_inv H. Qed.
+Lemma journaled_put_skip s : journaled (put_skip s).
+Proof. apply journaled_same. intros c w c' w' r H. now prim_inv H. Qed.
+Lemma journaled_put_keypair k : journaled (put_keypair k).
+Proof. apply journaled_same. intros c w c' w' r H. now prim_inv H. Qed.
+Lemma journaled_emit ops : journaled (emit ops).
 Proof.
   intros c w c' w' r H. apply emit_inv in H. destruct H as (_ & _ & done & Hj & Hd & _).
   exists (rev done). now rewrite rev_involutive.
@@ -229,8 +255,8 @@ Proof.
   destruct (apply_sop d o); [apply IH | reflexivity].
 Qed.
 
-Lemma journal_grows_bind {A B} (m : M A) (f : A -> M B) :
-  journal_grows m -> (forall a, journal_grows (f a)) -> journal_grows (mbind m f).
+Lemma journaled_bind {A B} (m : M A) (f : A -> M B) :
+  journaled m -> (forall a, journaled (f a)) -> journaled (mbind m f).
 Proof.
   intros Hm Hf c w c' w' r H. mstep_as H H1; apply Hm in H1; try assumption.
   apply Hf in H. destruct H1 as (o1 & J1 & D1), H as (o2 & J2 & D2). exists (o2 ++ o1).
@@ -238,14 +264,14 @@ Proof.
   now rewrite rev_app_distr, apply_sops_app, D1.
 Qed.
 
-Ltac journal_grows_prim :=
-  first [ apply journal_grows_ret | apply journal_grows_lift | apply journal_grows_get_core
-        | apply journal_grows_get_disk | apply journal_grows_set_core | apply journal_grows_send
-        | apply journal_grows_put_header | apply journal_grows_put_oplog | apply journal_grows_put_tree
-        | apply journal_grows_put_bitfield | apply journal_grows_put_skip | apply journal_grows_put_keypair
-        | apply journal_grows_emit ].
-Ltac journal_grows_tac :=
-  repeat first [ journal_grows_prim | assumption | apply journal_grows_bind; [|intros ?] | case_head ].
+Ltac journaled_prim :=
+  first [ apply journaled_ret | apply journaled_lift | apply journaled_get_core
+        | apply journaled_get_disk | apply journaled_set_core | apply journaled_send
+        | apply journaled_put_header | apply journaled_put_oplog | apply journaled_put_tree
+        | apply journaled_put_bitfield | apply journaled_put_skip | apply journaled_put_keypair
+        | apply journaled_emit ].
+Ltac journaled_tac :=
+  repeat first [ journaled_prim | hyp | apply journaled_bind; [|intros ?] | case_head ].
 
 (* ---------- quiet ---------- *)
 
@@ -269,14 +295,17 @@ Proof.
   apply Hf in H. destruct H1 as (-> & D1 & J1), H as (-> & D2 & J2). repeat split; congruence.
 Qed.
 
-Lemma quiet_journal_grows {A} (m : M A) : quiet m -> journal_grows m.
-Proof. intros Hq. apply journal_grows_same. intros c w c' w' r H. now apply Hq in H. Qed.
+Lemma journaled_grows {A} (m : M A) : journaled m -> journal_grows m.
+Proof. intros Hj c w c' w' r H. apply Hj in H. destruct H as (ops & H & _). now exists ops. Qed.
+
+Lemma quiet_journaled {A} (m : M A) : quiet m -> journaled m.
+Proof. intros Hq. apply journaled_same. intros c w c' w' r H. now apply Hq in H. Qed.
 
 Ltac quiet_prim :=
   first [ apply quiet_ret | apply quiet_lift | apply quiet_get_core | apply quiet_get_disk
         | apply quiet_send | apply quiet_emit_nil ].
 Ltac quiet_tac :=
-  repeat first [ quiet_prim | assumption | apply quiet_bind; [|intros ?] | case_head ].
+  repeat first [ quiet_prim | hyp | apply quiet_bind; [|intros ?] | case_head ].
 
 (* ---------- keeps ---------- *)
 
@@ -299,13 +328,74 @@ Proof.
   apply Hf in H. congruence.
 Qed.
 (* the put_* that leave a given projection alone: by computation *)
-Ltac keeps_put := intros ? ? ? ? ? H; prim_inv H; reflexivity.
+Ltac keeps_put := let Hx := fresh "Hx" in intros ? ? ? ? ? Hx; prim_inv Hx; reflexivity.
 Ltac keeps_prim :=
   first [ apply keeps_ret | apply keeps_lift | apply keeps_get_core | apply keeps_get_disk
         | apply keeps_send | apply keeps_emit ].
 Ltac keeps_tac :=
-  repeat first [ keeps_prim | assumption | apply keeps_bind; [|intros ?] | case_head
+  repeat first [ keeps_prim | hyp | apply keeps_bind; [|intros ?] | case_head
                | solve [keeps_put] ].
+
+(* ---------- exact event lists ---------- *)
+
+(* [emits m E]: a run of m that returns a sends exactly E a; a failing run sends nothing *)
+Definition emits {A} (m : M A) (E : A -> list event) : Prop :=
+  forall c w c' w' r, m c w = (c', w', r) ->
+    w_events w' = (match r with Ok a => E a | _ => [] end) ++ w_events w.
+
+(* [sender m E]: m never fails and sends exactly E; [sender_val m b E]: and returns b *)
+Definition sender {A} (m : M A) (E : list event) : Prop :=
+  forall c w, exists c' w' a, m c w = (c', w', Ok a) /\ w_events w' = E ++ w_events w.
+Definition sender_val {A} (m : M A) (b : A) (E : list event) : Prop :=
+  forall c w, exists c' w', m c w = (c', w', Ok b) /\ w_events w' = E ++ w_events w.
+
+(* [post m Q]: every value returned by m satisfies Q *)
+Definition post {A} (m : M A) (Q : A -> Prop) : Prop :=
+  forall c w c' w' a, m c w = (c', w', Ok a) -> Q a.
+
+Lemma post_true {A} (m : M A) : post m (fun _ => True).
+Proof. intros c w c' w' a _. exact I. Qed.
+
+Lemma emits_ret {A} (a : A) E : E a = [] -> emits (ret a) E.
+Proof. intros HE c w c' w' r H. prim_inv H. now rewrite HE. Qed.
+
+Lemma emits_lift {A} (x : res A) E : (forall a, x = Ok a -> E a = []) -> emits (lift x) E.
+Proof. intros HE c w c' w' r H. prim_inv H. destruct r; try reflexivity. now rewrite HE. Qed.
+
+Lemma silent_emits {A} (m : M A) : silent m -> emits m (fun _ => []).
+Proof. intros Hs c w c' w' r H. apply Hs in H. now destruct r. Qed.
+
+Lemma emits_bind_post {A B} (m : M A) (f : A -> M B) (Q : A -> Prop) E :
+  silent m -> post m Q -> (forall a, Q a -> emits (f a) E) -> emits (mbind m f) E.
+Proof.
+  intros Hs Hq Hf c w c' w' r H. mstep_as H H1; try (apply Hs in H1; assumption).
+  pose proof (Hq _ _ _ _ _ H1) as Qa. apply Hs in H1. apply (Hf _ Qa) in H. congruence.
+Qed.
+
+Lemma emits_bind {A B} (m : M A) (f : A -> M B) E :
+  silent m -> (forall a, emits (f a) E) -> emits (mbind m f) E.
+Proof. intros Hs Hf. apply (emits_bind_post m f (fun _ => True)); auto using post_true. Qed.
+
+Lemma emits_then_sender {A B} (m : M A) (f : A -> M B) E1 E2 E :
+  emits m (fun _ => E1) -> (forall a, sender (f a) E2) -> (forall b, E b = E2 ++ E1) ->
+  emits (mbind m f) E.
+Proof.
+  intros Hm Hf HE c w c' w' r H. mstep_as H H1; apply Hm in H1; try assumption.
+  destruct (Hf a c0 w0) as (c2 & w2 & b & H2 & Ev). rewrite H2 in H. inversion H; subst.
+  now rewrite HE, Ev, H1, app_assoc.
+Qed.
+
+Lemma sender_val_emits {A} (m : M A) b E0 E : sender_val m b E0 -> E b = E0 -> emits m E.
+Proof.
+  intros Hs <- c w c' w' r H. destruct (Hs c w) as (c2 & w2 & H2 & Ev).
+  rewrite H2 in H. inversion H; subst. assumption.
+Qed.
+
+Lemma sender_emits {A} (m : M A) E0 E : sender m E0 -> (forall b, E b = E0) -> emits m E.
+Proof.
+  intros Hs HE c w c' w' r H. destruct (Hs c w) as (c2 & w2 & b & H2 & Ev).
+  rewrite H2 in H. inversion H; subst. now rewrite HE.
+Qed.
 
 (* ---------- the internal flushing / logging computations ---------- *)
 
@@ -319,15 +409,665 @@ Section WithCrypto.
   Lemma log_and_commit_silent cs bu : silent (log_and_commit cr cs bu).
   Proof. unfold log_and_commit. silent_tac. Qed.
 
+  Lemma flush_all_journaled ct : journaled (flush_all cr ct).
+  Proof. unfold flush_all. journaled_tac. Qed.
+  Lemma maybe_flush_journaled f : journaled (maybe_flush cr f).
+  Proof. pose proof flush_all_journaled. unfold maybe_flush. journaled_tac. Qed.
+  Lemma log_and_commit_journaled cs bu : journaled (log_and_commit cr cs bu).
+  Proof. unfold log_and_commit. journaled_tac. Qed.
+
   Lemma flush_all_journal_grows ct : journal_grows (flush_all cr ct).
-  Proof. unfold flush_all. journal_grows_tac. Qed.
+  Proof. apply journaled_grows, flush_all_journaled. Qed.
   Lemma maybe_flush_journal_grows f : journal_grows (maybe_flush cr f).
-  Proof. pose proof flush_all_journal_grows. unfold maybe_flush. journal_grows_tac. Qed.
+  Proof. apply journaled_grows, maybe_flush_journaled. Qed.
   Lemma log_and_commit_journal_grows cs bu : journal_grows (log_and_commit cr cs bu).
-  Proof. unfold log_and_commit. journal_grows_tac. Qed.
+  Proof. apply journaled_grows, log_and_commit_journaled. Qed.
 
   Lemma flush_all_keeps_keypair ct : keeps c_keypair (flush_all cr ct).
   Proof. unfold flush_all. keeps_tac. Qed.
   Lemma flush_all_keeps_header ct : keeps c_header (flush_all cr ct).
   Proof. unfold flush_all. keeps_tac. Qed.
 End WithCrypto.
+
+Ltac silent_extra := fail.
+Ltac silent_tac ::=
+  repeat first [ silent_prim | hyp | silent_extra | apply silent_bind; [|intros ?] | case_head ].
+Ltac silent_extra ::=
+  first [ apply flush_all_silent | apply maybe_flush_silent | apply log_and_commit_silent ].
+
+(* [use_silent Hm]: Hm : m c w = (c1, w1, r1) with m silent becomes w_events w1 = w_events w *)
+Ltac use_silent Hm :=
+  match type of Hm with
+  | ?m ?c ?w = _ =>
+      let S := fresh "S" in
+      assert (S : silent m) by silent_tac; apply S in Hm; clear S
+  end.
+
+(* ====================================================================================== *)
+(* 1-2. C12: a core without secret key cannot append; make_read_only twice is a no-op      *)
+(* ====================================================================================== *)
+
+Section Theorems.
+  Variable cr : crypto.
+
+  Theorem append_not_writable f batch c w :
+    kp_secret (c_keypair c) = None ->
+    core_append cr f batch c w = (c, w, Err NotWritable).
+  Proof. intros H. unfold core_append, mbind, get_core. rewrite H. reflexivity. Qed.
+
+  Theorem make_read_only_noop c w :
+    kp_secret (c_keypair c) = None ->
+    core_make_read_only cr c w = (c, w, Ok false).
+  Proof. intros H. unfold core_make_read_only, mbind, get_core. rewrite H. reflexivity. Qed.
+
+(* ====================================================================================== *)
+(* 5. C04: a refused proof leaves core, disk, journal and events untouched                 *)
+(* ====================================================================================== *)
+
+  Theorem apply_fork_mismatch f pf c w :
+    p_fork pf <> t_fork (c_tree c) ->
+    core_apply_proof cr f pf c w = (c, w, Ok false).
+  Proof.
+    intros H. apply N.eqb_neq in H. unfold core_apply_proof, mbind, get_core. rewrite H. reflexivity.
+  Qed.
+
+  (* the general form: any non-Ok outcome of the verifier is returned as is *)
+  Lemma apply_verify_fail f pf c w :
+    p_fork pf = t_fork (c_tree c) ->
+    core_apply_proof cr f pf c w =
+      match verify_proof cr (c_tree c) (d_tree (w_disk w)) pf (kp_public (c_keypair c)) with
+      | Ok cs =>
+          if commitable (c_tree c) cs then core_apply_proof cr f pf c w else (c, w, Ok false)
+      | Err e => (c, w, Err e)
+      | Panic s => (c, w, Panic s)
+      | OutOfFuel => (c, w, OutOfFuel)
+      end.
+  Proof.
+    intros H. apply N.eqb_eq in H.
+    destruct (verify_proof cr (c_tree c) (d_tree (w_disk w)) pf (kp_public (c_keypair c))) as [cs|e|s|] eqn:V.
+    - destruct (commitable (c_tree c) cs) eqn:Cm; [reflexivity|].
+      unfold core_apply_proof, mbind at 1 2 3, get_core, get_disk, lift. rewrite H. cbn [negb].
+      rewrite V, Cm. reflexivity.
+    - unfold core_apply_proof, mbind, get_core, get_disk, lift. rewrite H. cbn [negb]. now rewrite V.
+    - unfold core_apply_proof, mbind, get_core, get_disk, lift. rewrite H. cbn [negb]. now rewrite V.
+    - unfold core_apply_proof, mbind, get_core, get_disk, lift. rewrite H. cbn [negb]. now rewrite V.
+  Qed.
+
+  Theorem apply_verify_error f pf c w e :
+    p_fork pf = t_fork (c_tree c) ->
+    verify_proof cr (c_tree c) (d_tree (w_disk w)) pf (kp_public (c_keypair c)) = Err e ->
+    core_apply_proof cr f pf c w = (c, w, Err e).
+  Proof. intros H V. rewrite apply_verify_fail by assumption. now rewrite V. Qed.
+
+  Theorem apply_verify_panic f pf c w s :
+    p_fork pf = t_fork (c_tree c) ->
+    verify_proof cr (c_tree c) (d_tree (w_disk w)) pf (kp_public (c_keypair c)) = Panic s ->
+    core_apply_proof cr f pf c w = (c, w, Panic s).
+  Proof. intros H V. rewrite apply_verify_fail by assumption. now rewrite V. Qed.
+
+  Theorem apply_verify_out_of_fuel f pf c w :
+    p_fork pf = t_fork (c_tree c) ->
+    verify_proof cr (c_tree c) (d_tree (w_disk w)) pf (kp_public (c_keypair c)) = OutOfFuel ->
+    core_apply_proof cr f pf c w = (c, w, OutOfFuel).
+  Proof. intros H V. rewrite apply_verify_fail by assumption. now rewrite V. Qed.
+
+  Theorem apply_not_commitable f pf c w cs :
+    verify_proof cr (c_tree c) (d_tree (w_disk w)) pf (kp_public (c_keypair c)) = Ok cs ->
+    commitable (c_tree c) cs = false ->
+    core_apply_proof cr f pf c w = (c, w, Ok false).
+  Proof.
+    intros V Cm. destruct (N.eq_dec (p_fork pf) (t_fork (c_tree c))) as [H|H].
+    - rewrite apply_verify_fail by assumption. now rewrite V, Cm.
+    - now apply apply_fork_mismatch.
+  Qed.
+
+
+(* ====================================================================================== *)
+(* 6. C13: the events sent by each operation                                               *)
+(* ====================================================================================== *)
+
+  Theorem get_events i c w c' w' r :
+    core_get i c w = (c', w', r) ->
+    w_events w' = (if bf_get (c_bitfield c) i then [] else [EvGet i]) ++ w_events w /\
+    (bf_get (c_bitfield c) i = false ->
+     r = Ok None /\ c' = c /\ w_journal w' = w_journal w /\ w_disk w' = w_disk w).
+  Proof.
+    unfold core_get. rewrite mbind_get_core. intros H.
+    destruct (bf_get (c_bitfield c) i) eqn:B; cbn [negb] in H.
+    - split; [|discriminate]. use_silent H. assumption.
+    - rewrite mbind_send in H. prim_inv H. cbn [w_events w_journal w_disk app]. auto.
+  Qed.
+
+  Theorem clear_events f s e : silent (core_clear cr f s e).
+  Proof. unfold core_clear. silent_tac. Qed.
+
+  (* the two fields of a changeset that an append batch reads back *)
+  Lemma append_root_fields c n it c' it' :
+    append_root cr c n it = Ok (c', it') ->
+    cs_ancestors c' = cs_ancestors c /\ cs_batch_length c' = cs_batch_length c.
+  Proof.
+    unfold append_root. intros H.
+    apply bind_ok in H. destruct H as (bl & _ & H).
+    apply bind_ok in H. destruct H as ([[rr nr] it2] & _ & H).
+    inversion H; subst. cbn [cs_ancestors cs_batch_length]. auto.
+  Qed.
+
+  Lemma cs_append_fields c d c' :
+    cs_append cr c d = Ok c' ->
+    cs_ancestors c' = cs_ancestors c /\ cs_batch_length c' = cs_batch_length c + 1.
+  Proof.
+    unfold cs_append. intros H.
+    apply bind_ok in H. destruct H as ([c1 it1] & H1 & H).
+    apply append_root_fields in H1. destruct H1 as [Ha Hb].
+    inversion H; subst. cbn [cs_ancestors cs_batch_length]. rewrite Ha, Hb. auto.
+  Qed.
+
+  Lemma cs_append_all_fields batch : forall cs cs',
+    cs_append_all cr cs batch = Ok cs' ->
+    cs_ancestors cs' = cs_ancestors cs /\
+    cs_batch_length cs' = cs_batch_length cs + N.of_nat (length batch).
+  Proof.
+    induction batch as [|d batch IH]; intros cs cs' H; cbn [cs_append_all] in H.
+    - inversion H; subst. cbn [length]. split; [reflexivity | lia].
+    - apply bind_ok in H. destruct H as (cs1 & H1 & H).
+      apply cs_append_fields in H1. apply IH in H. destruct H1 as [A1 B1], H as [A2 B2].
+      rewrite A2, A1, B2, B1. cbn [length]. split; [reflexivity | lia].
+  Qed.
+
+  Theorem append_events f batch c w c' w' r :
+    core_append cr f batch c w = (c', w', r) ->
+    w_events w' = (match r, batch with
+                   | Ok _, _ :: _ => [EvHave (t_length (c_tree c)) (N.of_nat (length batch)) false; EvUpgrade]
+                   | _, _ => []
+                   end) ++ w_events w.
+  Proof.
+    unfold core_append. rewrite mbind_get_core. intros H.
+    destruct (kp_secret (c_keypair c)) as [sk|].
+    2:{ prim_inv H. reflexivity. }
+    destruct batch as [|d batch].
+    { rewrite mbind_ret, mbind_get_core in H. prim_inv H. reflexivity. }
+    set (B := d :: batch) in *.
+    match type of H with
+    | ?m c w = _ =>
+        assert (Em : emits m (fun _ => [EvHave (t_length (c_tree c)) (N.of_nat (length B)) false; EvUpgrade]))
+    end.
+    { eapply emits_then_sender with (E2 := []); [ | | intros; reflexivity ].
+      2:{ intros _ c1 w1. do 3 eexists. split; reflexivity. }
+      apply emits_bind_post with
+        (Q := fun cs => cs_ancestors cs = t_length (c_tree c) /\ cs_batch_length cs = N.of_nat (length B)).
+      - silent_tac.
+      - intros c1 w1 c2 w2 cs Hl. apply (f_equal snd) in Hl. cbn [snd lift] in Hl.
+        apply cs_append_all_fields in Hl.
+        cbn [tree_changeset cs_ancestors cs_batch_length] in Hl. now rewrite N.add_0_l in Hl.
+      - intros cs [HA HB].
+        apply emits_bind; [silent_tac | intros _].
+        apply emits_bind; [silent_tac | intros _].
+        apply emits_bind; [silent_tac | intros _].
+        eapply sender_emits; [ | intros; reflexivity ].
+        intros c1 w1. do 3 eexists. split; [reflexivity|].
+        cbn [w_events bu_start bu_length cs_hash_and_sign cs_set_hash_sig cs_ancestors cs_batch_length app].
+        now rewrite HA, HB. }
+    apply Em in H. rewrite H. now destruct r.
+  Qed.
+
+  Theorem apply_events f pf c w c' w' r :
+    core_apply_proof cr f pf c w = (c', w', r) ->
+    w_events w' = (match r with
+                   | Ok true => (match p_block pf with Some b => [EvHave (db_index b) 1 false] | None => [] end)
+                                ++ (match p_upgrade pf with Some _ => [EvUpgrade] | None => [] end)
+                   | _ => []
+                   end) ++ w_events w.
+  Proof.
+    set (X := (match p_block pf with Some b => [EvHave (db_index b) 1 false] | None => [] end)
+              ++ (match p_upgrade pf with Some _ => [EvUpgrade] | None => [] end)).
+    assert (Em : emits (core_apply_proof cr f pf) (fun b : bool => if b then X else [])).
+    { unfold core_apply_proof.
+      apply emits_bind; [silent_tac | intros c0].
+      destruct (negb (p_fork pf =? t_fork (c_tree c0))); [now apply emits_ret|].
+      apply emits_bind; [silent_tac | intros d].
+      apply emits_bind; [silent_tac | intros cs].
+      destruct (negb (commitable (c_tree c0) cs)); [now apply emits_ret|].
+      apply emits_bind_post with
+        (Q := fun bu => bu = match p_block pf with
+                             | Some b => Some (mkBfUpdate false (db_index b) 1)
+                             | None => None
+                             end).
+      - silent_tac.
+      - intros c1 w1 c2 w2 bu Hb. destruct (p_block pf) as [b|].
+        + mstep Hb. mstep Hb. now prim_inv Hb.
+        + now prim_inv Hb.
+      - intros bu ->.
+        apply emits_bind; [silent_tac | intros _].
+        apply emits_bind; [silent_tac | intros _].
+        apply sender_val_emits with (b := true) (E0 := X); [|reflexivity].
+        intros c1 w1. subst X.
+        destruct (p_upgrade pf) as [u|], (p_block pf) as [b|]; do 2 eexists; split; reflexivity. }
+    intros H. apply Em in H. rewrite H. destruct r as [[|]| | |]; reflexivity.
+  Qed.
+
+  Theorem missing_nodes_silent i : silent (core_missing_nodes i) /\ silent (core_missing_nodes_tree i).
+  Proof. split; [unfold core_missing_nodes | unfold core_missing_nodes_tree]; silent_tac. Qed.
+
+  Theorem make_read_only_silent : silent (core_make_read_only cr).
+  Proof. unfold core_make_read_only. silent_tac. Qed.
+
+(* ====================================================================================== *)
+(* 3-4. C12: make_read_only erases the secret key and never looks at it                     *)
+(* ====================================================================================== *)
+
+  Theorem make_read_only_erases c w c' w' r sk :
+    kp_secret (c_keypair c) = Some sk ->
+    core_make_read_only cr c w = (c', w', r) ->
+    kp_secret (c_keypair c') = None /\ kp_secret (hd_keypair (c_header c')) = None.
+  Proof.
+    intros Hs. unfold core_make_read_only. rewrite mbind_get_core, Hs. intros H.
+    mstep H; prim_inv Hm. mstep H; prim_inv Hm.
+    assert (K : forall c1 w1 r1,
+               flush_all cr true
+                 (mkCore (mkKeypair (kp_public (c_keypair c)) None) (c_oplog c) (c_tree c) (c_bitfield c)
+                    (set_keypair (c_header c) (mkKeypair (kp_public (hd_keypair (c_header c))) None))
+                    (c_skip c)) w = (c1, w1, r1) ->
+               kp_secret (c_keypair c1) = None /\ kp_secret (hd_keypair (c_header c1)) = None).
+    { intros c1 w1 r1 Hf.
+      pose proof (flush_all_keeps_keypair cr true _ _ _ _ _ Hf) as K1.
+      pose proof (flush_all_keeps_header cr true _ _ _ _ _ Hf) as K2.
+      rewrite K1, K2. split; reflexivity. }
+    mstep H.
+    - prim_inv H. eapply K; eassumption.
+    - eapply K; eassumption.
+    - eapply K; eassumption.
+    - eapply K; eassumption.
+  Qed.
+
+  (* replace the secret key, both in the core's key pair and in the header's copy *)
+  Definition with_secret (c : core) (s : option bytes) : core :=
+    mkCore (mkKeypair (kp_public (c_keypair c)) s) (c_oplog c) (c_tree c) (c_bitfield c)
+           (set_keypair (c_header c) (mkKeypair (kp_public (hd_keypair (c_header c))) s))
+           (c_skip c).
+
+  (* every core is of this form *)
+  Lemma with_secret_id c :
+    kp_secret (hd_keypair (c_header c)) = kp_secret (c_keypair c) ->
+    with_secret c (kp_secret (c_keypair c)) = c.
+  Proof.
+    destruct c as [[pk sk] o t b [k ns mpk [hpk hsk] ht hc] sp]. cbn. intros ->. reflexivity.
+  Qed.
+
+  (* non-interference: the complete outcome (core, disk, journal, events, result) of
+     make_read_only is the same whatever the secret key bytes were *)
+  Theorem make_read_only_secret_independent c w s1 s2 :
+    core_make_read_only cr (with_secret c (Some s1)) w =
+    core_make_read_only cr (with_secret c (Some s2)) w.
+  Proof.
+    unfold core_make_read_only. rewrite !mbind_get_core.
+    cbn [with_secret c_keypair kp_secret].
+    unfold mbind at 1 2. unfold mbind at 3 4. unfold put_keypair, put_header.
+    cbn [with_secret c_keypair c_oplog c_tree c_bitfield c_header c_skip kp_public kp_secret
+         set_keypair hd_key hd_ns hd_mpk hd_keypair hd_tree hd_contig].
+    reflexivity.
+  Qed.
+
+  Theorem enc_header_secret_none h :
+    kp_secret (hd_keypair h) = None ->
+    enc_header h =
+      [1; 6] ++ hd_key h
+      ++ ([0; 0; 1] ++ [0] ++ hd_ns h ++ hd_mpk h)
+      ++ (enc_buffer (kp_public (hd_keypair h)) ++ [0])
+      ++ [0] ++ enc_header_tree (hd_tree h) ++ ([0] ++ enc_uint (hd_contig h)).
+  Proof. intros H. unfold enc_header, enc_keypair. rewrite H. reflexivity. Qed.
+
+(* ====================================================================================== *)
+(* 6 (end). C13: create_proof sends at most the Get event of its internal read              *)
+(* ====================================================================================== *)
+
+  Lemma core_get_quiet i : quiet (core_get i).
+  Proof. unfold core_get. quiet_tac. Qed.
+  Lemma core_create_proof_quiet blk h s u : quiet (core_create_proof blk h s u).
+  Proof. pose proof core_get_quiet. unfold core_create_proof. quiet_tac. Qed.
+  Lemma core_missing_nodes_quiet i : quiet (core_missing_nodes i) /\ quiet (core_missing_nodes_tree i).
+  Proof. split; [unfold core_missing_nodes | unfold core_missing_nodes_tree]; quiet_tac. Qed.
+
+  (* the block index whose value create_proof will try to read and which is not held *)
+  Definition proof_missing_block (blk h : option req_block) (s : option req_seek)
+             (u : option req_upgrade) (c : core) (w : world) : option N :=
+    match create_valueless_proof (c_tree c) (d_tree (w_disk w)) blk h s u with
+    | Ok vp => match vp_block vp with
+               | Some b => if bf_get (c_bitfield c) (dh_index b) then None else Some (dh_index b)
+               | None => None
+               end
+    | _ => None
+    end.
+
+  Theorem create_proof_events blk h s u c w c' w' r :
+    core_create_proof blk h s u c w = (c', w', r) ->
+    w_events w' = (match proof_missing_block blk h s u c w with
+                   | Some i => [EvGet i]
+                   | None => []
+                   end) ++ w_events w
+    /\ (forall i, proof_missing_block blk h s u c w = Some i -> r = Ok None)
+    /\ c' = c /\ w_disk w' = w_disk w /\ w_journal w' = w_journal w.
+  Proof.
+    intros H. split; [|split; [|exact (core_create_proof_quiet _ _ _ _ _ _ _ _ _ H)]];
+      revert H; unfold core_create_proof, proof_missing_block;
+      rewrite mbind_get_core, mbind_get_disk, mbind_lift;
+      destruct (create_valueless_proof (c_tree c) (d_tree (w_disk w)) blk h s u) as [vp|e|p|];
+      intros H; try (inversion H; subst; first [reflexivity | discriminate]).
+    - destruct (vp_block vp) as [b|]; [|prim_inv H; reflexivity].
+      mstep H; apply get_events in Hm; destruct Hm as [Hm _];
+        destruct (bf_get (c_bitfield c) (dh_index b)); try assumption;
+        destruct a; prim_inv H; assumption.
+    - destruct (vp_block vp) as [b|]; [|discriminate].
+      intros i Hi. destruct (bf_get (c_bitfield c) (dh_index b)) eqn:Bg; [discriminate|].
+      mstep H; apply get_events in Hm; destruct Hm as [_ Hm]; destruct (Hm Bg) as (Hr & _);
+        try discriminate.
+      inversion Hr; subst. now prim_inv H.
+  Qed.
+
+  (* in words: no event when the proof has no block section or the block is held *)
+  Corollary create_proof_silent_when blk h s u c w c' w' r :
+    core_create_proof blk h s u c w = (c', w', r) ->
+    proof_missing_block blk h s u c w = None -> w_events w' = w_events w.
+  Proof. intros H Hn. apply create_proof_events in H. destruct H as [H _]. now rewrite Hn in H. Qed.
+
+(* ====================================================================================== *)
+(* 7. C02: the shape of the storage journal of an append                                    *)
+(* ====================================================================================== *)
+
+  (* neither the journal nor the disk changes *)
+  Definition still {A} (m : M A) : Prop :=
+    forall c w c' w' r, m c w = (c', w', r) -> w_journal w' = w_journal w /\ w_disk w' = w_disk w.
+
+  Lemma still_bind {A B} (m : M A) (f : A -> M B) :
+    still m -> (forall a, still (f a)) -> still (mbind m f).
+  Proof.
+    intros Hm Hf c w c' w' r H. mstep_as H H1; apply Hm in H1; try assumption.
+    apply Hf in H. destruct H, H1. split; congruence.
+  Qed.
+  Ltac still_prim := let Hx := fresh "Hx" in intros ? ? ? ? ? Hx; prim_inv Hx; split; reflexivity.
+  Ltac still_tac :=
+    repeat first [ solve [still_prim] | hyp | apply still_bind; [|intros ?] | case_head ].
+
+  (* a bitfield-page or tree-node write *)
+  Definition is_bt_write (o : sop) : Prop :=
+    match o with SW Bitfield _ _ | SW Tree _ _ => True | _ => False end.
+
+  (* what a (non clear_traces) flush issues, oldest first: bitfield pages, tree nodes, then one
+     header slot write followed by the truncation of the entries *)
+  Definition flush_shape (fl : list sop) : Prop :=
+    exists bt slot hb,
+      fl = bt ++ [SW Oplog slot hb; ST Oplog ENTRIES_OFFSET] /\
+      (slot = 0 \/ slot = HEADER_SIZE) /\ Forall is_bt_write bt.
+
+  Lemma insert_header_shape h bits ct bits' ops :
+    insert_header cr h 0 bits ct = Ok (bits', ops) ->
+    exists slot hb, ops = [SW Oplog slot hb; ST Oplog ENTRIES_OFFSET] /\ (slot = 0 \/ slot = HEADER_SIZE).
+  Proof.
+    unfold insert_header, next_slot. intros H.
+    destruct (xorb (fst bits) (snd bits));
+      apply bind_ok in H; destruct H as (fr & _ & H);
+      match type of H with (if ?b then _ else _) = _ => destruct b end; try discriminate;
+      inversion H; subst; rewrite N.add_0_r; do 2 eexists; split; try reflexivity; auto.
+  Qed.
+
+  Lemma oplog_append_shape o e o' ops :
+    oplog_append cr o e = Ok (o', ops) ->
+    exists fr, ops = [SW Oplog (ENTRIES_OFFSET + ol_entries_bytes o) fr].
+  Proof.
+    unfold oplog_append. intros H.
+    apply bind_ok in H. destruct H as (payload & _ & H).
+    apply bind_ok in H. destruct H as (fr & _ & H).
+    inversion H; subst. now exists fr.
+  Qed.
+
+  Lemma flush_all_shape c w c' w' u :
+    flush_all cr false c w = (c', w', Ok u) ->
+    exists fl, w_journal w' = rev fl ++ w_journal w /\ flush_shape fl.
+  Proof.
+    unfold flush_all. rewrite mbind_get_core. intros H.
+    destruct (bf_flush (c_bitfield c)) as [b' pops] eqn:BF.
+    mstep H; prim_inv Hm.
+    mstep H. apply emit_ok in Hm. destruct Hm as (-> & _ & J1 & _).
+    rewrite mbind_lift in H.
+    destruct (tree_flush _) as [[t' tops]| | |] eqn:TF; try discriminate H.
+    mstep H; prim_inv Hm.
+    mstep H. apply emit_ok in Hm. destruct Hm as (-> & _ & J2 & _).
+    rewrite mbind_get_core, mbind_lift in H.
+    destruct (oplog_flush _ _ _ _) as [[o' oops]| | |] eqn:OF; try discriminate H.
+    mstep H; prim_inv Hm.
+    apply emit_ok in H. destruct H as (-> & _ & J3 & _).
+    exists (pops ++ tops ++ oops). split.
+    { rewrite J3, J2, J1, !rev_app_distr, <- !app_assoc. reflexivity. }
+    unfold oplog_flush in OF. apply bind_ok in OF. destruct OF as ([bits1 ops1] & IH & OF).
+    inversion OF; subst. apply insert_header_shape in IH. destruct IH as (slot & hb & -> & Hs).
+    exists (pops ++ tops), slot, hb. rewrite <- app_assoc. repeat split; [assumption|].
+    apply Forall_app. split.
+    - unfold bf_flush in BF. inversion BF; subst. apply Forall_forall. intros o Ho.
+      apply in_map_iff in Ho. destruct Ho as (p & <- & _). exact I.
+    - unfold tree_flush in TF.
+      match type of TF with (if ?b then _ else _) = _ => destruct b end; try discriminate TF.
+      inversion TF; subst. apply Forall_forall. intros o Ho.
+      apply in_map_iff in Ho. destruct Ho as (p & <- & _). exact I.
+  Qed.
+
+  Lemma maybe_flush_shape f c w c' w' u :
+    maybe_flush cr f c w = (c', w', Ok u) ->
+    exists fl, w_journal w' = rev fl ++ w_journal w /\ (fl = [] \/ flush_shape fl).
+  Proof.
+    unfold maybe_flush. rewrite mbind_get_core. intros H.
+    match type of H with (if ?b then _ else _) _ _ = _ => destruct b end.
+    - mstep H; prim_inv Hm. apply flush_all_shape in H. destruct H as (fl & J & S).
+      exists fl. auto.
+    - prim_inv H. exists []. auto.
+  Qed.
+
+  Lemma log_and_commit_journal cs bu c w c' w' u :
+    log_and_commit cr cs bu c w = (c', w', Ok u) ->
+    exists fr, w_journal w' = SW Oplog (ENTRIES_OFFSET + ol_entries_bytes (c_oplog c)) fr :: w_journal w.
+  Proof.
+    unfold log_and_commit. rewrite mbind_get_core, mbind_lift. intros H.
+    destruct (entry_of_changeset cs bu (c_header c)) as [[e h']| | |]; try discriminate H.
+    rewrite mbind_lift in H.
+    destruct (oplog_append cr (c_oplog c) e) as [[o' ops]| | |] eqn:OA; try discriminate H.
+    apply oplog_append_shape in OA. destruct OA as (fr & ->).
+    mstep H; prim_inv Hm.
+    mstep H. apply emit_ok in Hm. destruct Hm as (-> & _ & J1 & _).
+    match type of H with
+    | ?m _ _ = _ => assert (S : still m) by still_tac
+    end.
+    apply S in H. destruct H as [J2 _]. exists fr. now rewrite J2, J1.
+  Qed.
+
+  (* The journal delta of a successful non-empty append, oldest first: the data write, the
+     oplog entry write, then either nothing or a flush. *)
+  Theorem append_journal_order f batch c w c' w' x :
+    core_append cr f batch c w = (c', w', Ok x) -> batch <> [] ->
+    exists delta fr fl,
+      w_journal w' = rev delta ++ w_journal w /\
+      delta = SW Data (t_byte_length (c_tree c)) (concat batch)
+              :: SW Oplog (ENTRIES_OFFSET + ol_entries_bytes (c_oplog c)) fr :: fl /\
+      (fl = [] \/ flush_shape fl).
+  Proof.
+    unfold core_append. rewrite mbind_get_core. intros H Hne.
+    destruct (kp_secret (c_keypair c)) as [sk|]; [|discriminate H].
+    destruct batch as [|d batch]; [congruence|].
+    set (B := d :: batch) in *.
+    mstep H. rewrite mbind_get_core in H. prim_inv H.
+    rewrite mbind_lift in Hm.
+    destruct (cs_append_all cr (tree_changeset (c_tree c)) B) as [cs| | |]; try discriminate Hm.
+    mstep Hm. apply emit_ok in Hm0. destruct Hm0 as (-> & _ & J1 & _).
+    mstep Hm. apply log_and_commit_journal in Hm0. destruct Hm0 as (fr & J2).
+    mstep Hm. apply maybe_flush_shape in Hm0. destruct Hm0 as (fl & J3 & S).
+    rewrite !mbind_send in Hm. prim_inv Hm. cbn [w_journal].
+    exists (SW Data (t_byte_length (c_tree c)) (concat B)
+            :: SW Oplog (ENTRIES_OFFSET + ol_entries_bytes (c_oplog c)) fr :: fl), fr, fl.
+    split; [|split; [reflexivity | assumption]].
+    rewrite J3, J2, J1. cbn [rev app]. rewrite <- !app_assoc. reflexivity.
+  Qed.
+
+(* ====================================================================================== *)
+(* Extras: every operation only adds events / journal entries, and the disk is always the   *)
+(* old disk after the journalled operations                                                 *)
+(* ====================================================================================== *)
+
+  Theorem operations_journaled :
+    (forall f batch, journaled (core_append cr f batch)) /\
+    (forall i, journaled (core_get i)) /\
+    (forall f s e, journaled (core_clear cr f s e)) /\
+    (forall b h s u, journaled (core_create_proof b h s u)) /\
+    (forall f pf, journaled (core_apply_proof cr f pf)) /\
+    journaled (core_make_read_only cr).
+  Proof.
+    pose proof (flush_all_journaled cr). pose proof (maybe_flush_journaled cr).
+    pose proof (log_and_commit_journaled cr).
+    assert (forall i, journaled (core_get i)) by (intros; apply quiet_journaled, core_get_quiet).
+    repeat split; intros.
+    - unfold core_append. journaled_tac.
+    - auto.
+    - unfold core_clear. journaled_tac.
+    - apply quiet_journaled, core_create_proof_quiet.
+    - unfold core_apply_proof. journaled_tac.
+    - unfold core_make_read_only. journaled_tac.
+  Qed.
+
+  Theorem operations_frame_ev :
+    (forall f batch, frame_ev (core_append cr f batch)) /\
+    (forall i, frame_ev (core_get i)) /\
+    (forall f s e, frame_ev (core_clear cr f s e)) /\
+    (forall b h s u, frame_ev (core_create_proof b h s u)) /\
+    (forall f pf, frame_ev (core_apply_proof cr f pf)) /\
+    frame_ev (core_make_read_only cr).
+  Proof.
+    assert (F1 : forall f, frame_ev (maybe_flush cr f)) by (intros; apply silent_frame_ev, maybe_flush_silent).
+    assert (F2 : forall cs bu, frame_ev (log_and_commit cr cs bu))
+      by (intros; apply silent_frame_ev, log_and_commit_silent).
+    assert (F3 : forall i, frame_ev (core_get i)) by (intros; unfold core_get; frame_ev_tac).
+    repeat split; intros.
+    - unfold core_append. frame_ev_tac.
+    - auto.
+    - apply silent_frame_ev, clear_events.
+    - unfold core_create_proof. frame_ev_tac.
+    - unfold core_apply_proof. frame_ev_tac.
+    - apply silent_frame_ev, make_read_only_silent.
+  Qed.
+
+End Theorems.
+
+(* ====================================================================================== *)
+(* 8. Non-vacuity: a toy crypto record, a core opened on the empty disk, concrete runs      *)
+(* ====================================================================================== *)
+
+Definition toy_crypto : crypto :=
+  mkCrypto (fun b => le_bytes 32 (sumN b + 1))        (* never the all-zero (blank) hash *)
+           (fun b => sumN b mod 4294967296)
+           (fun sk m => le_bytes 64 (sumN sk + sumN m + 1))
+           (fun pk m sg => true).
+
+Definition toy_kp : keypair := mkKeypair (repeat 1 32) (Some (repeat 2 32)).
+
+(* open a fresh core, then run [k] on it in a world with empty journal and no events *)
+Definition toy_run {A} (k : M A) : option (core * world * res A) :=
+  match core_open toy_crypto (Some toy_kp) false disk_empty with
+  | (d, _, Ok c0) => Some (k c0 (mkWorld d [] []))
+  | _ => None
+  end.
+
+Definition observe {A} (x : option (core * world * res A)) : option (list event * res A) :=
+  match x with Some (_, w, r) => Some (w_events w, r) | None => None end.
+
+Example toy_append_events :
+  observe (toy_run (core_append toy_crypto (Some false) [[1; 2; 3]; [4]])) =
+  Some ([EvHave 0 2 false; EvUpgrade], Ok (2, 4)).
+Proof. vm_compute. reflexivity. Qed.
+
+(* two appends (the second one flushing), then a read of a held and of a missing block *)
+Example toy_append_get_events :
+  observe (toy_run (core_append toy_crypto (Some false) [[1; 2; 3]; [4]] ;;;
+                    core_append toy_crypto (Some true) [[5; 6]] ;;;
+                    a <-- core_get 2 ;;; b <-- core_get 7 ;;; ret (a, b))) =
+  Some ([EvGet 7; EvHave 2 1 false; EvUpgrade; EvHave 0 2 false; EvUpgrade],
+        Ok (Some [5; 6], None)).
+Proof. vm_compute. reflexivity. Qed.
+
+(* the journal of a non-empty append that flushes: data, oplog entry, bitfield page, tree nodes,
+   header slot, truncate *)
+Example toy_append_journal :
+  match toy_run (core_append toy_crypto (Some true) [[1; 2; 3]]) with
+  | Some (_, w, Ok _) =>
+      map (fun o => match o with
+                    | SW s off _ => (s, off, 0)
+                    | SD s off n => (s, off, n)
+                    | ST s n => (s, n, 1)
+                    end) (rev (w_journal w))
+  | _ => []
+  end = [(Data, 0, 0); (Oplog, 8192, 0); (Bitfield, 0, 0); (Tree, 0, 0); (Oplog, 4096, 0); (Oplog, 8192, 1)].
+Proof. vm_compute. reflexivity. Qed.
+
+(* make_read_only: true the first time, false the second; afterwards appends are refused and
+   nothing is sent *)
+Example toy_read_only :
+  observe (toy_run (a <-- core_make_read_only toy_crypto ;;;
+                    b <-- core_make_read_only toy_crypto ;;; ret (a, b))) = Some ([], Ok (true, false))
+  /\ observe (toy_run (core_make_read_only toy_crypto ;;;
+                       core_append toy_crypto None [[1]])) = Some ([], Err NotWritable).
+Proof. split; vm_compute; reflexivity. Qed.
+
+(* a proof created by one core and applied to a fresh read-only replica: block 1 + upgrade *)
+Definition toy_proof : option proof :=
+  match toy_run (core_append toy_crypto (Some true) [[1; 2; 3]; [4]] ;;;
+                 core_create_proof (Some (mkReqBlock 1 0)) None None (Some (mkReqUpgrade 0 2))) with
+  | Some (_, _, Ok p) => p
+  | _ => None
+  end.
+
+Definition toy_replica_run {A} (k : M A) : option (core * world * res A) :=
+  match core_open toy_crypto (Some (mkKeypair (repeat 1 32) None)) false disk_empty with
+  | (d, _, Ok c0) => Some (k c0 (mkWorld d [] []))
+  | _ => None
+  end.
+
+Example toy_apply_events :
+  match toy_proof with
+  | Some pf =>
+      observe (toy_replica_run (core_apply_proof toy_crypto (Some false) pf)) =
+        Some ([EvHave 1 1 false; EvUpgrade], Ok true)
+      /\ (* the same proof presented for another fork is refused without any effect *)
+      observe (toy_replica_run (core_apply_proof toy_crypto (Some false)
+                 (mkProof 1 (p_block pf) (p_hash pf) (p_seek pf) (p_upgrade pf)))) =
+        Some ([], Ok false)
+  | None => False
+  end.
+Proof. vm_compute. split; reflexivity. Qed.
+
+(* ====================================================================================== *)
+Print Assumptions append_not_writable.
+Print Assumptions make_read_only_noop.
+Print Assumptions apply_fork_mismatch.
+Print Assumptions apply_verify_error.
+Print Assumptions apply_verify_panic.
+Print Assumptions apply_verify_out_of_fuel.
+Print Assumptions apply_not_commitable.
+Print Assumptions get_events.
+Print Assumptions clear_events.
+Print Assumptions append_events.
+Print Assumptions apply_events.
+Print Assumptions missing_nodes_silent.
+Print Assumptions make_read_only_silent.
+Print Assumptions make_read_only_erases.
+Print Assumptions make_read_only_secret_independent.
+Print Assumptions enc_header_secret_none.
+Print Assumptions create_proof_events.
+Print Assumptions create_proof_silent_when.
+Print Assumptions append_journal_order.
+Print Assumptions operations_journaled.
+Print Assumptions operations_frame_ev.
+Print Assumptions flush_all_silent.
+Print Assumptions maybe_flush_silent.
+Print Assumptions log_and_commit_silent.
+Print Assumptions flush_all_journal_grows.
+Print Assumptions maybe_flush_journal_grows.
+Print Assumptions log_and_commit_journal_grows.
+Print Assumptions toy_append_events.
+Print Assumptions toy_append_get_events.
+Print Assumptions toy_append_journal.
+Print Assumptions toy_read_only.
+Print Assumptions toy_apply_events.
